@@ -254,9 +254,13 @@ func (s *fnStash) clone(c *cloner) stasher {
 	for name, value := range s.indexOfArgumentName {
 		index[name] = value
 	}
+	var arguments *object
+	if s.arguments != nil {
+		arguments = c.object(s.arguments)
+	}
 	*out = fnStash{
 		dclStash:            *dclStash,
-		arguments:           c.object(s.arguments),
+		arguments:           arguments,
 		indexOfArgumentName: index,
 	}
 	return out
